@@ -329,7 +329,7 @@ impl ViCut {
 		if self.current_buffer().select_range().is_some() {
 			// We are in visual mode if we've made it here
 			// So we are going to use the editor's selected content
-			Ok(self.current_buffer().selected_content().unwrap())
+			Ok(self.current_buffer().selected_content().unwrap_or_default())
 		} else {
 			if self.current_buffer().buffer.is_empty() {
 				return Ok(String::new())
